@@ -10,4 +10,6 @@ import LC.Props.C06
 #print axioms LC.V2Tok.spelling_table
 #print axioms LC.V2Tok.https_http
 #print axioms LC.V2Tok.replaceHttps_idem
+#print axioms LC.V2Tok.normalizeToken_capital
+#print axioms LC.V2Tok.normalizeToken_idem
 #print axioms LC.V2Tok.notice_inside_span_dropped
